@@ -389,7 +389,7 @@ def run(ctx, part):
                 if ctx.mine(n) and (fn == "pc_map_sim" or (m + len(want)) % 2 == 0):
                     sim_case(fn, m, want)
     # ---------------------------------------------------------------- random phase
-    N = ctx.n(420, 8000) // ctx.nshards
+    N = ctx.n(420, 6000) // ctx.nshards
     if part not in ("BN_P256", "SM9_P256", "B12_P381"):
         N = ctx.n(420, 900) // ctx.nshards          # sweep sizes: slower models
     ws = [WEIGHT[f] for f in singles]
